@@ -44,6 +44,11 @@ def other_corpus(rng, n_notes):
     structural_tandems = {'*staff1', '*staff2', '*staff1/2', '*xywh-1:10,20,30,40'}
     out += [('tandem', x) for x in G.TANDEMS if x not in structural_tandems]
     out += [('text', x) for x in G.WORDS + G.HOSTILE_WORDS + G.SEPARATOR_WORDS]
+    # a character outside the lexer's alphabet next to a structural token: the cell is free text as a whole
+    for u in ('§', '€', 'ß', 'ø', '¿', '日', 'ü', '–', '“', '\x07'):
+        for st in ('.', '=', '*', '*clefG2', '=1', '*M3/4', '==', '*staff1'):
+            out.append(('text', u + st))
+            out.append(('text', st[:1] + u + st[1:]) if len(st) > 1 else ('text', u + st + u))
     for _ in range(n_notes):
         r = rng.random()
         if r < 0.6:
